@@ -147,3 +147,54 @@ func TestMemdbIteratorKeepsItsDirectionAfterSeek(t *testing.T) {
 	// Range whose bounds are absent keys: [c, e) holds only "d".
 	check("range c..e", &util.Range{Start: []byte("c"), Limit: []byte("e")}, "e", "d")
 }
+
+func scnMemdbSizeOf(db *memdb.DB) (n, size int) {
+	it := db.NewIterator(nil)
+	defer it.Release()
+	for it.Next() {
+		n++
+		size += len(it.Key()) + len(it.Value())
+	}
+	return
+}
+
+// Reset returns the table to the initial empty state; a reused table must
+// report Len and Size consistent with its (new) contents.
+// obligation memdb.(*DB).Reset:post(C14:reset-empties-the-table-and-its-counters)
+func TestMemdbResetZeroesItsCounters(t *testing.T) {
+	db := memdb.New(comparer.DefaultComparer, 0)
+
+	check := func(stage string) {
+		n, size := scnMemdbSizeOf(db)
+		if db.Len() != n {
+			t.Errorf("%s: Len() = %d, contents hold %d entries", stage, db.Len(), n)
+		}
+		if db.Size() != size {
+			t.Errorf("%s: Size() = %d, contents hold %d bytes", stage, db.Size(), size)
+		}
+	}
+
+	// First life: a mixed sequence.
+	db.Put([]byte("alpha"), []byte("1"))
+	db.Put([]byte("beta"), []byte("22"))
+	db.Put([]byte("gamma"), []byte("333"))
+	db.Put([]byte("beta"), []byte("4444")) // overwrite, different length
+	db.Delete([]byte("alpha"))
+	check("first life")
+
+	db.Reset()
+	check("after Reset")
+	if db.Size() != 0 || db.Len() != 0 {
+		t.Errorf("after Reset: Len() = %d, Size() = %d; want 0, 0", db.Len(), db.Size())
+	}
+
+	// Second life.
+	db.Put([]byte("k"), []byte("v"))
+	db.Put([]byte(""), []byte("")) // empty key, empty value
+	db.Put([]byte("kk"), []byte("vv"))
+	db.Delete([]byte("k"))
+	check("second life")
+	if _, err := db.Get([]byte("beta")); err != memdb.ErrNotFound {
+		t.Errorf("second life: key of first life still visible (err = %v)", err)
+	}
+}
